@@ -146,16 +146,16 @@ class PersistentMixin(Module):
         data = {k: v.export_value() for k, v in self.parameters.items()
                 if getattr(v, 'persistent', False)}
         if data != self.persistentData:
-            self.persistentData = data
             persistentdir = self.persistentFile.parent
             tmpfile = self.persistentFile.parent / (self.persistentFile.name + '.tmp')
             if not persistentdir.is_dir():
                 persistentdir.mkdir(parents=True, exist_ok=True)
             try:
                 with open(tmpfile, 'w', encoding='utf-8') as f:
-                    json.dump(self.persistentData, f, indent=2)
+                    json.dump(data, f, indent=2)
                     f.write('\n')
                 os.rename(tmpfile, self.persistentFile)
+                self.persistentData = data  # only now the data are saved
             finally:
                 try:
                     os.remove(tmpfile)
